@@ -9,19 +9,32 @@ package guardiand
 //   Gap          db.FindEmitterSequenceGap       nodePrivilegedService.FindMissingMessages (no backfill)
 //   GovBatch     db.GetGovernanceVAABatch        PublicrpcServer.GetGovernanceVAABatch
 //   NonGovBatch                                  PublicrpcServer.GetNonGovernanceVAABatch
+//   GapBackfill                                  nodePrivilegedService.FindMissingMessages with rpc_backfill against a
+//                                                scripted backfill node (httptest) that delivers some gaps, answers 404 for
+//                                                others and misbehaves (500 / connection reset / garbage) for chosen ones;
+//                                                what the call injects into the node (signedInC) is stored like the
+//                                                processor stores an inbound signed VAA
 
 import (
 	"context"
+	"crypto/sha256"
+	"encoding/base64"
 	"encoding/hex"
+	"encoding/json"
 	"fmt"
+	"net/http"
+	"net/http/httptest"
 	"os"
 	"path/filepath"
 	"strconv"
+	"strings"
 	"sync"
 	"testing"
+	"time"
 
 	"github.com/alephium/wormhole-fork/node/pkg/common"
 	"github.com/alephium/wormhole-fork/node/pkg/db"
+	gossipv1 "github.com/alephium/wormhole-fork/node/pkg/proto/gossip/v1"
 	nodev1 "github.com/alephium/wormhole-fork/node/pkg/proto/node/v1"
 	publicrpcv1 "github.com/alephium/wormhole-fork/node/pkg/proto/publicrpc/v1"
 	"github.com/alephium/wormhole-fork/node/pkg/publicrpc"
@@ -306,6 +319,163 @@ func (r *scRun) nonGovBatch(a map[string]interface{}) {
 
 const scGovChain = vaa.ChainID(1)
 
+// ---------------------------------------------------------------- backfill
+
+// scBackfill: the fake public REST API of another guardian, GET <node>/v1/signed_vaa/<ec>/<addr>/<tc>/<seq>, scripted
+// per call by plan: abstract sequence -> "ok" | "404" | "500" | "reset" | "garbage" | "badb64" (default "404").
+type scBackfill struct {
+	mu       sync.Mutex
+	w        *shWorld
+	st       shID
+	plan     map[int]string
+	served   []shVal // what was delivered with 200
+	requests int
+	srv      *httptest.Server
+}
+
+func (f *scBackfill) ServeHTTP(rw http.ResponseWriter, req *http.Request) {
+	f.mu.Lock()
+	defer f.mu.Unlock()
+	f.requests++
+	path := strings.TrimPrefix(req.URL.Path, "/b") // the same node under a second URL
+	id, _, ok := f.w.parseMsgID(strings.TrimPrefix(path, "/v1/signed_vaa/"))
+	if !strings.HasPrefix(path, "/v1/signed_vaa/") || !ok || id.EC != f.st.EC || id.Em != f.st.Em || id.TC != f.st.TC {
+		rw.WriteHeader(http.StatusNotFound) // not a gap of the stream asked about: this node does not have it
+		return
+	}
+	switch f.plan[id.Seq] {
+	case "ok":
+		tag := "bf"
+		v := f.w.vaa(id, tag, 0)
+		f.served = append(f.served, shVal{ID: id, Tag: tag})
+		b, _ := json.Marshal(map[string]string{"vaaBytes": base64.StdEncoding.EncodeToString(v.Encode())})
+		rw.Header().Set("Content-Type", "application/json")
+		rw.Write(b)
+	case "500":
+		rw.WriteHeader(http.StatusInternalServerError)
+	case "reset":
+		if hj, ok := rw.(http.Hijacker); ok {
+			if c, _, err := hj.Hijack(); err == nil {
+				c.Close()
+				return
+			}
+		}
+		rw.WriteHeader(http.StatusNotFound)
+	case "garbage":
+		rw.Write([]byte("<html>certainly not json"))
+	case "badb64":
+		rw.Write([]byte(`{"vaaBytes":"!!! not base64 !!!"}`))
+	default:
+		rw.WriteHeader(http.StatusNotFound)
+	}
+}
+
+func (r *scRun) gapBackfill(a map[string]interface{}) {
+	stm := vhMap(a, "st")
+	st := shID{EC: vhInt(stm, "ec", 0), Em: vhStr(stm, "em"), TC: vhInt(stm, "tc", 0)}
+	stJ := map[string]interface{}{"ec": st.EC, "em": st.Em, "tc": st.TC}
+	vid := r.w.vaaID(st)
+	plan := map[int]string{}
+	planJ := map[string]interface{}{}
+	for k, v := range vhMap(a, "plan") {
+		if n, err := strconv.Atoi(k); err == nil {
+			plan[n] = fmt.Sprint(v)
+			planJ[k] = fmt.Sprint(v)
+		}
+	}
+	f := &scBackfill{w: r.w, st: st, plan: plan}
+	f.srv = httptest.NewServer(f)
+	defer f.srv.Close()
+
+	// the node side of the injection: what FindMissingMessages hands to signedInC is stored (the processor's job;
+	// signatures are not checked here), decoded with the harness's own codec
+	in := make(chan *gossipv1.SignedVAAWithQuorum)
+	var got, stored int
+	var inMu sync.Mutex
+	stop := make(chan struct{})
+	var wg sync.WaitGroup
+	wg.Add(1)
+	go func() {
+		defer wg.Done()
+		for {
+			select {
+			case m := <-in:
+				inMu.Lock()
+				got++
+				inMu.Unlock()
+				if v, err := vhDecode(m.Vaa, true); err == nil && len(v.Sigs) > 0 {
+					r.d.StoreSignedVAA(shToVAA(v))
+				}
+				inMu.Lock()
+				stored++
+				inMu.Unlock()
+			case <-stop:
+				return
+			}
+		}
+	}()
+	r.admin.signedInC = in
+	var resp *nodev1.FindMissingMessagesResponse
+	code := "OK"
+	errs := scGuard(func() error {
+		var err error
+		resp, err = r.admin.FindMissingMessages(r.ctx, &nodev1.FindMissingMessagesRequest{
+			EmitterChain: uint32(st.EC), TargetChain: uint32(st.TC), EmitterAddress: hex.EncodeToString(vid.EmitterAddress[:]),
+			RpcBackfill: true, BackfillNodes: []string{f.srv.URL, f.srv.URL + "/b"}})
+		code = status.Code(err).String()
+		return err
+	})
+	// every injection has been received when the call returns (unbuffered channel); wait until it is stored too
+	for i := 0; i < 20000; i++ {
+		inMu.Lock()
+		done := got == stored
+		inMu.Unlock()
+		if done {
+			break
+		}
+		time.Sleep(50 * time.Microsecond)
+	}
+	close(stop)
+	wg.Wait()
+	r.admin.signedInC = nil
+
+	f.mu.Lock()
+	servedV, requests := f.served, f.requests
+	f.mu.Unlock()
+	// really filled = what the store now holds under the identifiers the backfill node delivered, if it is those bytes
+	served := []interface{}{}
+	fills := []interface{}{}
+	seen := map[shID]bool{}
+	for _, sv := range servedV {
+		if seen[sv.ID] {
+			continue
+		}
+		seen[sv.ID] = true
+		served = append(served, map[string]interface{}{"id": sv.ID.J(), "tag": sv.Tag})
+		if b, err := r.d.GetSignedVAABytes(r.w.vaaID(sv.ID)); err == nil {
+			if have, ok := r.w.byHash[sha256.Sum256(b)]; ok && have == sv {
+				fills = append(fills, map[string]interface{}{"id": sv.ID.J(), "tag": sv.Tag})
+			}
+		}
+	}
+	as := []int{}
+	bad := false
+	first, last := 0, 0
+	if errs == "" && resp != nil {
+		for _, m := range resp.MissingMessages {
+			id, _, ok := r.w.parseMsgID(m)
+			if !ok || id.EC != st.EC || id.Em != st.Em || id.TC != st.TC {
+				bad = true
+				continue
+			}
+			as = append(as, id.Seq)
+		}
+		first, last = shSeqA(resp.FirstSequence), shSeqA(resp.LastSequence)
+	}
+	r.log("GapBackfill", map[string]interface{}{"st": stJ, "via": "admin", "plan": planJ, "fills": fills, "served": served, "requests": requests},
+		map[string]interface{}{"err": errs, "code": code, "badid": bad, "missing": as, "first": first, "last": last})
+}
+
 func scRunScenario(base string, sc vhScenario) ([]scLine, error) {
 	dir := filepath.Join(base, "s"+strconv.Itoa(sc.ID))
 	if err := os.MkdirAll(dir, 0o755); err != nil {
@@ -331,6 +501,8 @@ func scRunScenario(base string, sc vhScenario) ([]scLine, error) {
 			r.get(st.A)
 		case "Gap":
 			r.gap(st.A)
+		case "GapBackfill":
+			r.gapBackfill(st.A)
 		case "GovBatch":
 			r.govBatch(st.A)
 		case "NonGovBatch":
